@@ -32,6 +32,17 @@ Theorem C01_signature_term_injective : forall hv hl f A R x R' f2 A2 R2 x2 R2',
 Proof. exact sig_injective. Qed.
 Print Assumptions C01_signature_term_injective.
 
+(* The same modulo the order of the entries of every combination (dds_hash_commut is an XOR-fold: the order is not
+   observable): [peq] relates two terms that differ by permutations inside combinations; [ceq] relates two contents
+   that differ by the order of the named entries (arguments, loads, external names, variables) at any depth - the
+   order of the interactions is determined, their index is part of the key. *)
+Theorem C01_signature_term_injective_perm : forall hv hl f A R x R' f2 A2 R2 x2 R2',
+  sana hv hl f (skey A) R = inr (x, R') -> sana hv hl f2 (skey A2) R2 = inr (x2, R2') ->
+  peq (sfi_sig x) (sfi_sig x2) ->
+  exists c c2, content_of hv hl f A R = Some c /\ content_of hv hl f2 A2 R2 = Some c2 /\ ceq c c2.
+Proof. exact sig_injective_perm. Qed.
+Print Assumptions C01_signature_term_injective_perm.
+
 (* Root calls (dds.eval / dds.keep at top level: no call-site context, as in DdsEval.analysis). *)
 Theorem C01_signature_term_injective_root : forall hv hl f named R x R' f2 named2 R2 x2 R2',
   sana hv hl f (named, None) R = inr (x, R') -> sana hv hl f2 (named2, None) R2 = inr (x2, R2') ->
@@ -53,7 +64,7 @@ Print Assumptions C01_signature_term_injective_known.
 
 (* The term built for a content determines it: as a signature, and as the context of a call site. *)
 Theorem C01_content_encoding_injective : forall c c2, (enc c = enc c2 -> c = c2) /\ (enc_site c = enc_site c2 -> c = c2).
-Proof. intros c c2. split; [apply enc_injective|apply enc_site_injective]. Qed.
+Proof. exact (fun c c2 => conj (enc_injective c c2) (enc_site_injective c c2)). Qed.
 Print Assumptions C01_content_encoding_injective.
 
 (* [sana] computes exactly the encoding of the content: same failures, same resolved references. *)
